@@ -84,7 +84,8 @@ def build(chk):
     chk.add(e2d.ob('O7.FixedArray2D.getitem', 'c19/array2d.c', 'h_2d_getitem', 'FixedArray2D<int>: a[i,j] reads the element a nested Python list selects, negative indices included; out of range raises IndexError', defines=('N=%d' % N2D,),
                    unwind=2 * (N2D + 1) * N2D + 2, timeout=600, bounds=B2D, extra=('--pointer-overflow-check',), backends=('kissat', 'minisat', 'cadical')))
     for hn, what in (('setitem_scalar', 'a[xs,ys] = v writes exactly the elements selected by the two forward slices / integers'),
-                     ('setitem_vector', 'a[xs,ys] = b assigns element-wise when the shapes match, else raises and writes nothing')):
+                     ('setitem_vector', 'a[xs,ys] = b assigns element-wise when the shapes match, else raises and writes nothing'),
+                     ('setitem_array1d', 'a[xs,ys] = <1-D array> consumes the source row by row when its length is the number of selected elements, else raises and writes nothing')):
         for kinds, kn in ((1, 'int_slice'), (2, 'slice_int'), (3, 'int_int')):
             chk.add(e2d.ob('O7.FixedArray2D.%s.%s' % (hn, kn), 'c19/array2d.c', 'h_2d_' + hn, 'FixedArray2D<int>: ' + what + ' (index kinds: %s)' % kn.replace('_', ', '), defines=('N=%d' % N2D, 'KINDS=%d' % kinds),
                            unwind=2 * (N2D + 1) * N2D + 2, timeout=900, bounds=B2D, extra=('--pointer-overflow-check',), backends=('kissat', 'minisat', 'cadical'), core=(kinds == 3)))
